@@ -2,7 +2,9 @@ use crate::common::Ctx;
 use serde_json::Value;
 
 pub mod c15;
+pub mod c16;
 pub mod c17;
+pub mod c19;
 
 type RunFn = fn(&Ctx) -> i32;
 type ReplayFn = fn(&Ctx, &Value) -> Result<(bool, String), String>;
@@ -10,7 +12,9 @@ type ReplayFn = fn(&Ctx, &Value) -> Result<(bool, String), String>;
 fn table(prop: &str) -> Option<(RunFn, ReplayFn)> {
     Some(match prop {
         "C15" => (c15::run, c15::replay),
+        "C16" => (c16::run, c16::replay),
         "C17" => (c17::run, c17::replay),
+        "C19" => (c19::run, c19::replay),
         _ => return None,
     })
 }
